@@ -297,14 +297,18 @@ import time as _time
 
 
 class Budget(object):
-    """Wall-clock budget for one shard: only ever *ends* a workload early (the evidence reports what was
-    actually run); never part of a verdict."""
+    """Budget for one shard: only ever *ends* a workload early (the evidence reports what was actually run); never
+    part of a verdict.  Counted in CPU time of the worker process, so that a loaded machine does not shrink the
+    workload (and with it what the monitors get to see); a wall-clock cap of three times the amount keeps a check from
+    dragging on when the machine is badly overloaded."""
 
     def __init__(self, tier, quick=35.0, thorough=1500.0):
-        self.deadline = _time.time() + (quick if tier == 'quick' else thorough)
+        self.amount = quick if tier == 'quick' else thorough
+        self.cpu0 = _time.process_time()
+        self.wall0 = _time.time()
 
     def expired(self, res=None):
-        if _time.time() > self.deadline:
+        if _time.process_time() - self.cpu0 > self.amount or _time.time() - self.wall0 > 3 * self.amount:
             if res is not None:
                 res.see('time-budget-stop')
             return True
